@@ -45,5 +45,19 @@ def build(tier, seed):
         k.stubs = ['clang diagnostics: list of (severity, message id); String: the sequence of pushed messages', 'std::fs::{metadata, symlink_metadata}, PermissionsExt: a model of stat / lstat on one path (exists, link, target)', 'eprintln!: no-op']
         k.bounds = ['<= 3 diagnostics; <= 2 input headers; modes <= 0o7777']
         return k
+    # code-generation kernels whose panic freedom is part of this property: the link-name decision and the consumers of the calling convention
+    try:
+        from props import c04
+        for kk in c04.build(tier, seed):
+            if kk.name == 'link_name':
+                kk.name = 'link_name_decision'
+                kk.harnesses = [h for h in kk.harnesses if h.name == 'link_name_decision_never_panics']
+                ks.append(kk)
+            elif kk.name == 'abi':
+                kk.name = 'calling_convention'
+                kk.harnesses = [h for h in kk.harnesses if h.name == 'any_calling_convention_is_bound_or_skipped_never_a_panic']
+                ks.append(kk)
+    except Exception as e:
+        ks.append(Kernel(name='calling_convention', error='build-failed: %s' % e))
     ks.append(kernel_or_error('error_paths', errors))
     return ks
